@@ -9,6 +9,7 @@ define_language! {
         F(Slot, Slot) = "f",
         P2(Slot, Slot) = "p",
         F3(Slot, Slot, Slot) = "f3",
+        P3(Slot, Slot, Slot) = "p3",
         F4(Slot, Slot, Slot, Slot) = "f4",
         F5(Slot, Slot, Slot, Slot, Slot) = "f5",
         F6(Slot, Slot, Slot, Slot, Slot, Slot) = "f6",
